@@ -772,4 +772,67 @@ example := set_format_section_clears_standing_frame
   (mkConfig .section false 0 120 0 none none (some 5) none none none none) rfl
   { (init 3 0) with formatLineCount := 0, displayedLineCount := some 1 } 0 "1/3 done".toList 1 rfl
 
+/-! ## `start(max)` with an explicit maximum, also on a bar that already has one (round 10) -/
+
+/-- the proof obligation tied to the source: `start(max)` takes the new maximum under `max is not None` - every explicit
+maximum, 0 included (the translator accepts no other guard) -/
+theorem start_guard_read : Gen.C16.startTakesEveryExplicitMax = true := rfl
+
+/-- **An explicit `start(m)` decides the maximum**: whatever maximum the bar had (constructor, an earlier `start`, a
+maximum moved along by a step beyond it), after `start(m)` the maximum is `max(0, m)` and the step is 0 - in particular
+`start(0)` is "length unknown" again. -/
+theorem start_explicit_max (c : Config) (s : State) (t : Nat) (m : Int) :
+    (start c s t (some m)).st.max = (Max.max 0 m).toNat ∧ (start c s t (some m)).st.step = 0 := by
+  simp only [start]
+  exact ⟨(display_step_max c _ t).2, (display_step_max c _ t).1⟩
+
+/-- `start()` without argument keeps the maximum -/
+theorem start_none_keeps_max (c : Config) (s : State) (t : Nat) :
+    (start c s t none).st.max = s.max ∧ (start c s t none).st.step = 0 := by
+  simp only [start]
+  exact ⟨(display_step_max c _ t).2, (display_step_max c _ t).1⟩
+
+/-- the frame drawn by `start(m)` is truthful for the NEW maximum: step 0 of `max(0, m)` -/
+theorem start_explicit_frame (c : Config) (s : State) (t : Nat) (m : Int) (f : Frame)
+    (h : (start c s t (some m)).frame = some f) :
+    f.current = 0 ∧ f.max = (Max.max 0 m).toNat := by
+  simp only [start] at h
+  have := display_frame c _ t f h
+  exact ⟨this.1, this.2.1⟩
+
+/-- `finish()` on a bar without maximum ends at the step reached -/
+theorem finish_without_maximum (c : Config) (s : State) (t : Nat) (h : s.max = 0) :
+    (finish c s t).st.max = s.step ∧ (finish c s t).st.step = s.step := by
+  unfold finish finishWith
+  simp only [h, if_true]
+  split
+  · exact ⟨rfl, rfl⟩
+  · have := setProgress_step_max c { s with max := s.step } t (s.step : Int)
+    refine ⟨?_, by simpa using this.1⟩
+    rw [this.2]
+    simp [newMax]
+
+/-- **Re-start with "length unknown"**: `start(0)` on ANY bar, then `finish()` after any number of steps `k >= 0`
+made by one `set_progress(k)`: the bar ends at `k`, not at the maximum it had before. -/
+theorem restart_unknown_ends_at_step (c : Config) (s : State) (t1 t2 t3 : Nat) (k : Nat) :
+    let s1 := (start c s t1 (some 0)).st
+    let s2 := (setProgress c s1 t2 (k : Int)).st
+    (finish c s2 t3).st.max = k ∧ (finish c s2 t3).st.step = k := by
+  intro s1 s2
+  have h1 : s1.max = 0 := by simpa using (start_explicit_max c s t1 0).1
+  have h2 := setProgress_step_max c s1 t2 (k : Int)
+  have hmax : s2.max = 0 := by
+    show (setProgress c s1 t2 (k : Int)).st.max = 0
+    rw [h2.2]; simp [newMax, h1]
+  have hstep : s2.step = k := by
+    show (setProgress c s1 t2 (k : Int)).st.step = k
+    rw [h2.1]; simp
+  have := finish_without_maximum c s2 t3 hmax
+  rw [hstep] at this
+  exact this
+
+/-- non-vacuity: a bar constructed with maximum 10 and re-started with 0 has no maximum -/
+example : (start (mkConfig .plain false 0 120 0 none none none none none none none) (init 10 0) 5 (some 0)).st.max = 0 :=
+  (start_explicit_max _ _ _ 0).1
+
 end Clikit.Props.C16
